@@ -279,14 +279,17 @@ func (db *TempPool) OperationHashes(
 		nfilter = func(isaac.PoolOperationRecordMeta) (bool, error) { return true, nil }
 	}
 
-	ops := make([][2]util.Hash, limit)
-	removeordereds := make([][]byte, limit)
-	removeops := make([]util.Hash, limit)
+	if limit < 1 {
+		return nil, nil
+	}
 
-	var opsindex uint64
-	var removeorderedsindex, removeopsindex uint64
+	var ops [][2]util.Hash // NOTE superseded item is left empty, [2]util.Hash{}
+	var removeordereds [][]byte
+	var removeops []util.Hash
 
-	facts := map[string]uint64{}
+	var selected uint64
+
+	facts := map[string]int{} // NOTE fact hash -> index of ops
 	defer func() {
 		clear(facts)
 		facts = nil
@@ -297,8 +300,7 @@ func (db *TempPool) OperationHashes(
 		func(k []byte, b []byte) (bool, error) {
 			meta, err := ReadFrameHeaderOperation(b)
 			if err != nil {
-				removeordereds[removeorderedsindex] = k
-				removeorderedsindex++
+				removeordereds = append(removeordereds, k)
 
 				return true, nil
 			}
@@ -307,50 +309,50 @@ func (db *TempPool) OperationHashes(
 			case err != nil:
 				return false, err
 			case !ok:
-				removeops[removeopsindex] = meta.Operation()
-				removeopsindex++
+				removeops = append(removeops, meta.Operation())
 
 				return true, nil
 			}
 
-			// NOTE filter duplicated fact; last one will be selected
-			if prev, found := facts[meta.Fact().String()]; found {
-				removeops[removeopsindex] = meta.Operation()
-				removeopsindex++
+			// NOTE filter duplicated fact; last one will be selected and the
+			// previous one will be removed from pool.
+			factkey := meta.Fact().String()
 
-				nops := make([][2]util.Hash, len(ops))
-				copy(nops, ops[:prev])
-				copy(nops[prev:], ops[prev+1:])
+			if prev, found := facts[factkey]; found {
+				removeops = append(removeops, ops[prev][0])
+				ops[prev] = [2]util.Hash{}
 
-				ops = nops
-
-				opsindex--
+				selected--
 			}
 
-			ops[opsindex] = [2]util.Hash{meta.Operation(), meta.Fact()}
-			facts[meta.Fact().String()] = opsindex
-			opsindex++
+			ops = append(ops, [2]util.Hash{meta.Operation(), meta.Fact()})
+			facts[factkey] = len(ops) - 1
+			selected++
 
-			if opsindex == limit {
-				return false, nil
-			}
-
-			return true, nil
+			return selected < limit, nil
 		},
 		true,
 	); err != nil {
 		return nil, e.Wrap(err)
 	}
 
-	if err := db.removeNewOperationOrdereds(removeordereds[:removeorderedsindex]); err != nil {
+	if err := db.removeNewOperationOrdereds(removeordereds); err != nil {
 		return nil, e.Wrap(err)
 	}
 
-	if err := db.setRemoveNewOperations(ctx, height, removeops[:removeopsindex]); err != nil {
+	if err := db.setRemoveNewOperations(ctx, height, removeops); err != nil {
 		return nil, e.Wrap(err)
 	}
 
-	return ops[:opsindex], nil
+	selectedops := make([][2]util.Hash, 0, selected)
+
+	for i := range ops {
+		if ops[i][0] != nil {
+			selectedops = append(selectedops, ops[i])
+		}
+	}
+
+	return selectedops, nil
 }
 
 func (db *TempPool) TraverseOperationsBytes(
